@@ -112,6 +112,8 @@ def judgeScheme2 (op : String) (out : List String) : PS Bool := do
               for (i, hx) in k.b do
                 if (← oNat) != i then throw "slot index"
                 expectEq "slot" (← oG1) hx
+              -- the unmarshalled key, marshalled again by the real code, must be the model's marshalling of it
+              oCheck ((← oTok) == bytesToHex (marshalKey comp k)) "re-marshalled key differs from the model's marshalling of the unmarshalled key"
               oEnd) out)
             match src with
             | some (_, _, i) => match st.keys[i]? with
